@@ -533,6 +533,8 @@ class Lowering:
         if op(func) == "builtin" and fname == "zip" and len(args) == 2 and not kws and op(args[0]) == "call" and args[0][1] == ("ext", "itertools.count") and len(args[0][2]) <= 1 and not args[0][3] and op(args[1]) != "star":
             # zip(itertools.count(k), xs) yields the pairs of enumerate(xs, start=k)
             return ("call", ("builtin", "enumerate"), (args[1],), (("start", args[0][2][0]),) if args[0][2] else ())
+        if op(func) == "builtin" and fname == "sorted" and len(args) == 1 and op(args[0]) == "call" and args[0][1] == ("builtin", "sorted") and len(args[0][2]) == 1 and args[0][3] == kws:
+            return args[0]  # sorting a list that was just sorted with the same key (the sort is stable and idempotent)
         if fname == "typing.cast" and len(args) == 2:
             return args[1]
         if fname in ("list", "dict", "set") and not args and not kws:
